@@ -106,7 +106,9 @@ func gen(g *common.Gen) {
 		g.Op("val c")
 		g.Op("val own")
 		g.Op("val %s", c03.GenCuts(r, size))
-		if size <= 700 {
+		// generic-curve ECDSA verification costs milliseconds: sample the positions for those keys
+		slowKey := strings.Contains(mk, "521") || strings.Contains(mk, "384") || strings.Contains(mk, "224")
+		if size <= 700 && !(slowKey && !common.Thorough()) {
 			g.Op("flipall c")
 			// tampered bytes through a SEGMENTED reader as well: the encoder's own buffers / cuts
 			switch {
